@@ -109,7 +109,8 @@ pub fn gen_rows(r: &mut Rng) -> Vec<Row> {
         } else {
             aff.to_string()
         };
-        cells[14] = format!("r{}", k);
+        // some memos start with '#' (a comment marker in many CSV dialects, not in this one)
+        cells[14] = if r.chance(15) { format!("#r{}", k) } else { format!("r{}", k) };
         let usd = r.chance(35);
         let set_cur = |cells: &mut Vec<String>, r: &mut Rng| {
             if usd {
@@ -418,6 +419,7 @@ fn dump_result(which: &str, rr: &AppRenderResult, out: &mut String) {
             .rows
             .iter()
             .filter_map(|r| memo_col.and_then(|c| r.get(c)).cloned())
+            .map(|m| m.trim_start_matches('#').to_string())
             .filter(|m| m.starts_with('r') && m[1..].chars().all(|c| c.is_ascii_digit()) && m.len() > 1)
             .map(|m| m[1..].to_string())
             .collect();
